@@ -126,6 +126,9 @@ func callMode(p cat.Program, root vuego.Template, vue *vuego.Vue, entry string, 
 	switch entry {
 	case "load":
 		err = root.Load("page.vuego").Fill(data).Render(ctx, &buf)
+	case "assign":
+		// per-request values assigned on top of (possibly shared, read-only) site data
+		err = root.Load("page.vuego").Fill(data).Assign("reqid", "r"+suffix).Assign("unum", 1).Render(ctx, &buf)
 	case "file":
 		err = root.New().Fill(data).RenderFile(ctx, &buf, "page.vuego")
 	case "string":
@@ -531,7 +534,7 @@ func classify(c Case) (bool, []string) {
 
 func replay(kind string, raw json.RawMessage) error { return run.Decode(raw, check) }
 
-var allEntries = []string{"load", "file", "string", "reader", "vue", "frag"}
+var allEntries = []string{"load", "file", "string", "reader", "vue", "frag", "assign"}
 
 func TestProp(t *testing.T) {
 	rec := ev.New(prop)
